@@ -47,14 +47,14 @@ def getPts (j : Json) : Except String (Option (List (List String))) :=
 def getSpot (j : Json) : Except String Spot := do
   let id ← match j.getObjValD "id" with
     | .null => pure none
-    | v => do pure (some (← v.getNat?))
+    | v => do pure (some (← getInt? v).toNat)
   let roi ← match j.getObjValD "roi" with
     | .null => pure none
     | r => do pure (some { nPoints := ← getInt? (← r.getObjVal? "n"), pts := ← getPts (r.getObjValD "pts") : Roi })
   return { id := id, name := ← getOptStr (j.getObjValD "name"), feats := ← getFeats (← j.getObjVal? "f"), roi := roi }
 
 def getEdge (j : Json) : Except String Edge := do
-  return { s := ← (← j.getObjVal? "s").getNat?, t := ← (← j.getObjVal? "t").getNat?,
+  return { s := (← getInt? (← j.getObjVal? "s")).toNat, t := (← getInt? (← j.getObjVal? "t")).toNat,
            feats := ← getFeats (← j.getObjVal? "f") }
 
 def getTrack (j : Json) : Except String Track := do
@@ -84,7 +84,7 @@ def valJson : Val → Json
   | .none => Json.mkObj [("none", Json.bool true)]
 
 def kindStr : Kind → String
-  | .int64 => "int64" | .float64 => "float64" | .str => "str" | .roiRegular => "roi-regular"
+  | .int64 => "int64" | .uint64 => "uint64" | .float64 => "float64" | .str => "str" | .roiRegular => "roi-regular"
   | .roiVarlen => "roi-varlen" | .unmodelled => "unmodelled"
 
 def propsJson (ps : List PropOut) : Json :=
